@@ -42,6 +42,12 @@ def points_inside_polygon(points, polygon, inside=None, atol=1e-8,
     atol = np.float64(atol)
     points = points.astype(np.float64)
     polygon = polygon.astype(np.float64)
+    for nm, arr in [("points", points), ("polygon", polygon)]:
+        if arr.ndim != 2 or arr.shape[1] != 2:
+            errmess = f"Expected {nm} with 2 columns [x, y], "\
+                      + f"got shape {arr.shape}."
+            raise ValueError(errmess)
+
     if inside is None:
         inside = np.zeros(len(points), dtype=np.int32)
     else:
